@@ -91,7 +91,11 @@ func (p *Propagation) appendLocked(db int, args [][]byte) {
 }
 
 // End returns the current end offset of the stream.
-func (p *Propagation) End() int64 { p.mu.Lock(); defer p.mu.Unlock(); return p.base + int64(len(p.buf)) }
+func (p *Propagation) End() int64 {
+	p.mu.Lock()
+	defer p.mu.Unlock()
+	return p.base + int64(len(p.buf))
+}
 
 // Bytes returns a copy of the stream from offset `from` to the current end.
 func (p *Propagation) Bytes(from int64) []byte {
